@@ -602,7 +602,20 @@ class NF:
         parts = [self.poly(x, sc, at, depth) for x in e.values]
         deps = frozenset().union(*[p.deps for p in parts])
         nm = "and" if isinstance(e.op, ast.And) else "or"
-        return Poly.atom(f"{nm}(" + ", ".join(sorted(p.canon() for p in parts)) + ")", deps)
+        texts = [p.canon() for p in parts]
+        _BOOLISH = ("Eq(", "NotEq(", "Lt(", "LtE(", "Is(", "IsNot(", "In(", "NotIn(", "and(", "or(", "not(")
+        if all(t in ("0", "1") or t.startswith(_BOOLISH) for t in texts):
+            # operands are truth values: the neutral constant can be dropped, the absorbing one decides
+            neutral, absorbing = ("1", "0") if nm == "and" else ("0", "1")
+            if absorbing in texts:
+                return Poly.const(int(absorbing)) if hasattr(Poly, "const") else Poly({(): int(absorbing)})
+            keep = [(t, p) for t, p in zip(texts, parts) if t != neutral]
+            if not keep:
+                return Poly.const(int(neutral)) if hasattr(Poly, "const") else Poly({(): int(neutral)})
+            if len(keep) == 1:
+                return keep[0][1]
+            texts = [t for t, _ in keep]
+        return Poly.atom(f"{nm}(" + ", ".join(sorted(texts)) + ")", deps)
 
     def _e_JoinedStr(self, e, sc, at, depth):
         parts, deps = [], frozenset()
